@@ -51,6 +51,23 @@ pub fn set_commit_observer(observer: Option<Arc<CommitObserver>>) {
     *COMMIT_OBSERVER.write().unwrap() = observer;
 }
 
+/// Observer of successfully applied commits (after the nonce gate passed and state was applied).
+pub type CommitDoneObserver = dyn Fn(usize) + Send + Sync;
+
+static COMMIT_DONE_OBSERVER: RwLock<Option<Arc<CommitDoneObserver>>> = RwLock::new(None);
+
+/// Install (or clear) the applied-commit observer.
+pub fn set_commit_done_observer(observer: Option<Arc<CommitDoneObserver>>) {
+    *COMMIT_DONE_OBSERVER.write().unwrap() = observer;
+}
+
+pub(crate) fn commit_done(txid: usize) {
+    let observer = COMMIT_DONE_OBSERVER.read().unwrap().clone();
+    if let Some(observer) = observer {
+        observer(txid);
+    }
+}
+
 pub(crate) fn commit_event(txid: usize, result: &crate::beneficiary::SpeculativeResult) {
     let observer = COMMIT_OBSERVER.read().unwrap().clone();
     if let Some(observer) = observer {
